@@ -1656,7 +1656,7 @@ pub fn run_c25(rep: &Report) -> i32 {
         rep.machinery_error(m.clone());
     }
     for ((kind, site), (n, vs)) in &total.viols {
-        rep.count(&format!("violations[{}|{}]", kind, site), *n);
+        rep.count(&format!("violating_terms[{}|{}]", kind, site), *n);
         for (_, _, v) in vs {
             rep.violation(v.clone());
         }
